@@ -218,6 +218,8 @@ class ZcLog:
         self.request_script: Callable[["FakeServiceInfo", Any, int], Any] | None = None
         self.requests: list[tuple[str, str]] = []
         self.now: Callable[[], float] = lambda: 0.0
+        self.close_script: Any = None  # None | Exception (the next async_close raises it) | "hang" (awaits a future the harness holds)
+        self.close_pending: list[Any] = []
 
 
 class FakeZeroconf:
@@ -262,6 +264,17 @@ def make_zeroconf_fakes(log: ZcLog) -> tuple[type, type, type]:
             log.events.append((log.now(), "create", self.label))
 
         async def async_close(self) -> None:
+            script, log.close_script = log.close_script, None
+            if isinstance(script, BaseException):
+                log.events.append((log.now(), "async_close_raises", self.label))
+                raise script
+            if script == "hang":
+                import asyncio as _asyncio
+
+                fut = _asyncio.get_running_loop().create_future()
+                log.close_pending.append(fut)
+                log.events.append((log.now(), "async_close_hangs", self.label))
+                await fut
             self.closed += 1
             self.zeroconf.closed = True
             log.events.append((log.now(), "async_close", self.label))
